@@ -26,7 +26,7 @@ from harness.common import (Run, Disagreement, cli, DriverError)  # noqa: E402
 PROP = 'C05'
 EPOCH = datetime.datetime(2000, 1, 1)
 NS = {'p': 'urn:c05:p', 'xs': 'http://www.w3.org/2001/XMLSchema'}
-DOCVARS = {90: 'count(//b)', 91: 'count(/*/*)'}
+DOCVARS = {90: 'count(//b)', 91: 'count(/*/*)', 92: '/*/string-length#0()'}
 BINDERS = ('L', 'F', 'O', 'Y')
 KW = {'L': ('let', ':=', 'return'), 'F': ('for', 'in', 'return'),
       'O': ('some', 'in', 'satisfies'), 'Y': ('every', 'in', 'satisfies')}
@@ -82,9 +82,11 @@ def encode(e) -> str:
         return f'V {e[1]}'
     if t == 'E':
         return 'E'
-    if t in ('P', 'Z', 'C0'):
+    if t in ('P', 'Z', 'C0', 'J'):
         return f'{t} {encode(e[1])}'
-    if t in ('S', 'A', 'M', 'Q', 'C'):
+    if t == 'K':
+        return f'K {e[1]}'
+    if t in ('S', 'A', 'M', 'Q', 'C', 'J2'):
         return f'{t} {encode(e[1])} {encode(e[2])}'
     if t == 'D':
         return f'D {e[1]} {"n" if e[2] is None else e[2]}'
@@ -107,6 +109,12 @@ def dt_text(loc, tz):
     return (EPOCH + datetime.timedelta(seconds=loc)).strftime('%Y-%m-%dT%H:%M:%S') + tz_text(tz)
 
 
+def dur_text(secs: int) -> str:
+    sign = '-' if secs < 0 else ''
+    m = abs(secs) // 60
+    return f'{sign}PT{m // 60}H{m % 60}M' if m else 'PT0S'
+
+
 def render(e, merge=False) -> str:
     t = e[0]
     if t == 'I':
@@ -125,6 +133,12 @@ def render(e, merge=False) -> str:
         return f"xs:dateTime('{dt_text(e[1], e[2])}')"
     if t == 'Z':
         return f'timezone-from-dateTime({render(e[1], merge)})'
+    if t == 'K':
+        return f"xs:dayTimeDuration('{dur_text(e[1])}')"
+    if t == 'J':
+        return f'adjust-dateTime-to-timezone({render(e[1], merge)})'
+    if t == 'J2':
+        return f'adjust-dateTime-to-timezone({render(e[1], merge)}, {render(e[2], merge)})'
     if t in BINDERS:
         kw, mid, fin = KW[t]
         clauses = [(e[1], e[2])]
@@ -268,7 +282,7 @@ class Gen:
         if o == 'var':
             return ('V', rng.choice(vs))
         if o == 'doc':
-            return ('V', rng.choice([90, 91]))
+            return ('V', rng.choice([90, 91, 92]))
         if o in ('add', 'sub'):
             a, b = self.g_int(scope, d - 1), self.g_int(scope, d - 1)
             return ('A' if o == 'add' else 'M', wrap_operand(a), wrap_operand(b))
@@ -326,6 +340,19 @@ class Gen:
             return ('V', rng.choice(vs))
         if d > 0 and rng.random() < 0.25:
             return self.binder_let('dt', scope, d)
+        if d > 0 and rng.random() < 0.35:
+            # fn:adjust-dateTime-to-timezone, 1- and 2-argument forms, `()` / literal / timezone-from-dateTime as target
+            inner = self.g_dt(scope, d - 1)
+            r = rng.random()
+            if r < 0.4:
+                return ('J', wrap_operand(inner))
+            if r < 0.6:
+                z = ('E',)
+            elif r < 0.85:
+                z = ('K', rng.randrange(-28, 29) * 1800)
+            else:
+                z = ('Z', wrap_operand(self.g_dt(scope, d - 1)))
+            return ('J2', wrap_operand(inner), z)
         loc = rng.randrange(-5 * 86400, 5 * 86400)
         tz = None if rng.random() < 0.45 else rng.randrange(-28, 29) * 30
         return ('D', loc, tz)
@@ -489,7 +516,7 @@ def doc_counts(i):
     import xml.etree.ElementTree as ET
     root = ET.XML(DOCS[i][1])
     nb = sum(1 for e in root.iter() if e.tag == 'b')
-    return {90: nb, 91: len(list(root))}
+    return {90: nb, 91: len(list(root)), 92: len(''.join(root.itertext()))}
 
 
 _LIVE_LEX = None
@@ -625,6 +652,11 @@ def token_shape(tk) -> str:
     if src.startswith('xs:dateTime('):
         from elementpath.datatypes import DateTime
         return 'D ' + canon_item(DateTime.fromstring(src[13:-2]))[1:].replace('@', ' ')
+    if src.startswith('xs:dayTimeDuration('):
+        from elementpath.datatypes import DayTimeDuration
+        return f'K {int(DayTimeDuration.fromstring(src[20:-2]).seconds)}'
+    if src.startswith('adjust-dateTime-to-timezone('):
+        return ('J ' if len(tk) == 1 else 'J2 ') + ' '.join(token_shape(c) for c in tk)
     if src.startswith('timezone-from-dateTime('):
         return 'Z ' + token_shape(tk[0] if sym != ':' else tk[1][0])
     return f'?{sym}'
@@ -919,6 +951,78 @@ CACHE_EXPRS = [
     "string-join((for $i in 1 to $v return 'x'), '')", "map:merge((map{1:$v}, map{2:count(//b)}))(2)",
     "map:put(map{1:$v}, 2, 5)(1)", "sort((3,1,$v))", "$v ! (. + 1)", "let $x := $v return function(){$x}()",
     "count(/*/*) + $v", "(//b)[$v]/name()", "some $x in //b satisfies count($x/preceding-sibling::*) = $v",
+    # named function references: the item carries the focus / root of the evaluation that built it
+    "let $f := /*/name#0 return $f()", "/*/name#0()", "/*/local-name#0()", "/*/string#0()", "/*/string-length#0() + $v",
+    "/*/node-name#0()", "/*/data#0()", "/*/normalize-space#0()", "/*/number#0()", "/*/base-uri#0()",
+    "/*/root#0() ! name(.)", "//b/position#0()", "(//b)[$v]/last#0()", "for $f in //b/string#0 return $f()",
+    "(//b ! string-length#0) ! .()", "let $fs := (for $e in //* return $e/name#0) return $fs ! .()",
+    "let $fs := (for $e in //* return $e/local-name#0) return (count($fs), $fs[last()](), $fs[1]())",
+    "let $f := count#1 return $f(//b) + $v", "for-each(//*, name#1)", "let $g := (/*/*)[1]/name#0 return ($g(), /*/name#0())",
+    "(/*/*)[$v] ! string#0 ! .()", "let $f := /*/*[last()]/string-length#0 return ($f(), $f(), string-length(/*/*[last()]))",
+]
+
+# expressions over a caller's date/time OBJECT `$d` (xs:dateTime, xs:date or xs:time, with or without timezone) and the
+# implicit timezone of the step: every function that reads or rewrites the timezone
+OBJ_EXPRS = {
+    'dateTime': [
+        "adjust-dateTime-to-timezone($d)", "adjust-dateTime-to-timezone($d, ())",
+        "adjust-dateTime-to-timezone($d, xs:dayTimeDuration('PT2H'))", "adjust-dateTime-to-timezone($d, xs:dayTimeDuration('-PT10H'))",
+        "timezone-from-dateTime($d)", "(adjust-dateTime-to-timezone($d), timezone-from-dateTime($d))",
+        "let $e := adjust-dateTime-to-timezone($d) return ($d - $e, timezone-from-dateTime($d), string($d))",
+        "for $x in ($d, $d) return adjust-dateTime-to-timezone($x, xs:dayTimeDuration('PT1H'))",
+        "(hours-from-dateTime($d), minutes-from-dateTime($d), day-from-dateTime($d), year-from-dateTime($d))",
+        "string($d)", "$d - xs:dateTime('2000-01-01T00:00:00Z')", "$d eq xs:dateTime('2000-01-01T00:00:00Z')",
+        "$d lt xs:dateTime('2000-01-01T00:00:00')", "xs:date($d)", "xs:time($d)", "max(($d, xs:dateTime('2000-01-01T00:00:00Z')))",
+        "$d + xs:dayTimeDuration('PT1H')", "dateTime(xs:date($d), xs:time($d))", "deep-equal($d, adjust-dateTime-to-timezone($d))",
+        "function($x) { adjust-dateTime-to-timezone($x) }($d)", "format-dateTime($d, '[H01]:[m01] [Z]')",
+    ],
+    'date': [
+        "adjust-date-to-timezone($d)", "adjust-date-to-timezone($d, ())", "adjust-date-to-timezone($d, xs:dayTimeDuration('PT2H'))",
+        "adjust-date-to-timezone($d, xs:dayTimeDuration('-PT10H'))", "timezone-from-date($d)",
+        "(adjust-date-to-timezone($d), timezone-from-date($d), string($d))", "(day-from-date($d), month-from-date($d), year-from-date($d))",
+        "$d - xs:date('2000-01-01Z')", "$d eq xs:date('2000-01-01Z')", "xs:dateTime($d)", "$d + xs:dayTimeDuration('P1D')",
+        "let $e := adjust-date-to-timezone($d) return ($e, $d)",
+    ],
+    'time': [
+        "adjust-time-to-timezone($d)", "adjust-time-to-timezone($d, ())", "adjust-time-to-timezone($d, xs:dayTimeDuration('PT2H'))",
+        "adjust-time-to-timezone($d, xs:dayTimeDuration('-PT10H'))", "timezone-from-time($d)",
+        "(adjust-time-to-timezone($d), timezone-from-time($d), string($d))", "(hours-from-time($d), minutes-from-time($d), seconds-from-time($d))",
+        "$d - xs:time('09:00:00Z')", "$d eq xs:time('09:00:00Z')", "$d + xs:dayTimeDuration('PT1H')",
+        "let $e := adjust-time-to-timezone($d) return ($e, $d)",
+    ],
+}
+OBJ_VALUES = {
+    'dateTime': ['2002-03-07T10:00:00', '2002-03-07T10:00:00-07:00', '1999-12-31T23:30:00+05:30', '2000-01-01T00:00:00Z'],
+    'date': ['2002-03-07', '2002-03-07-07:00', '1999-12-31+05:30'],
+    'time': ['10:00:00', '10:00:00-07:00', '23:30:00+05:30'],
+}
+
+
+def _elems(root):
+    return [e for e in root.iter() if isinstance(e.tag, str)]
+
+
+def _local(e):
+    return e.tag.rsplit('}', 1)[-1]
+
+
+def _sv(e):
+    return ''.join(e.itertext())
+
+
+# expressions whose value is ALSO computed here from the ElementTree / lxml tree itself (an oracle that does not run
+# elementpath): one named function reference evaluated once per iteration / per path step, the items called afterwards
+ORACLE_EXPRS = [
+    ("for $f in //b/string#0 return $f()", lambda r, v: [_sv(e) for e in _elems(r) if e.tag == 'b']),
+    ("(//b ! string-length#0) ! .()", lambda r, v: [len(_sv(e)) for e in _elems(r) if e.tag == 'b']),
+    ("let $fs := (for $e in //* return $e/local-name#0) return $fs ! .()", lambda r, v: [_local(e) for e in _elems(r)]),
+    ("let $fs := (for $e in //* return $e/local-name#0) return (count($fs), $fs[last()](), $fs[1]())",
+     lambda r, v: [len(_elems(r)), _local(_elems(r)[-1]), _local(_elems(r)[0])]),
+    ("//*/local-name#0()", lambda r, v: [_local(e) for e in _elems(r)]),
+    ("(for $e in //* return $e/string-length#0) ! (.() + $v)", lambda r, v: [len(_sv(e)) + v for e in _elems(r)]),
+    ("let $g := (//*)[last()]/local-name#0, $h := /*/local-name#0 return ($g(), $h(), $g())",
+     lambda r, v: [_local(_elems(r)[-1]), _local(r), _local(_elems(r)[-1])]),
+    ("/*/string-length#0() + $v", lambda r, v: [len(_sv(r)) + v]),
 ]
 
 
@@ -941,7 +1045,8 @@ def cache_histories(run: Run) -> None:
     from elementpath import Selector
     from elementpath.xpath31 import XPath31Parser
     rng = run.rng
-    for expr in CACHE_EXPRS:
+    oracle = dict(ORACLE_EXPRS)
+    for expr in CACHE_EXPRS + [e for e, _ in ORACLE_EXPRS]:
         for _ in range(run.scale(4, 30)):
             try:
                 sel = Selector(expr, parser=XPath31Parser)
@@ -949,6 +1054,8 @@ def cache_histories(run: Run) -> None:
                 run.disagree(Disagreement({'xpath': expr}, canon_error(e), 'parsed', what='cache-expression-rejected'))
                 break
             steps = [(rng.randrange(len(DOCS)), rng.randrange(1, 4)) for _ in range(rng.randrange(3, 9))]
+            if len({d for d, _ in steps}) < 2:
+                steps[-1] = ((steps[0][0] + 1 + rng.randrange(len(DOCS) - 1)) % len(DOCS), steps[-1][1])
             docs = {}
             for k, (d, v) in enumerate(steps):
                 if d not in docs:
@@ -970,6 +1077,13 @@ def cache_histories(run: Run) -> None:
                 if got != fresh:
                     run.disagree(Disagreement(case, got, None, spec=fresh, what='reused-selector-vs-fresh', site='token-level state'))
                     break
+                if expr in oracle:
+                    want = canon_any(oracle[expr](root, v))
+                    run.stats.count('cache-history-steps-with-tree-oracle')
+                    if got != want:
+                        run.disagree(Disagreement(case, got, None, spec=want, what='function-items-of-one-reference',
+                                                  site="'#' named function reference"))
+                        break
                 if it != got:
                     run.disagree(Disagreement(case, 'iter_select:' + it, None, spec='iter_select:' + got,
                                               what='select-vs-iter_select', site='Selector.iter_select'))
@@ -977,6 +1091,57 @@ def cache_histories(run: Run) -> None:
                 if tostr() != before or vs != {'v': v}:
                     run.disagree(Disagreement(case, 'modified', None, spec='unchanged', what='caller-state-modified'))
                     break
+
+
+def object_histories(run: Run) -> None:
+    """one Selector over histories of (implicit timezone) with the SAME caller-owned xs:dateTime / xs:date / xs:time
+    object in the variables map: every step must equal a fresh select() on a fresh object, and the caller's object must
+    be the same object in the same state (str(), tzinfo) afterwards."""
+    import elementpath
+    from elementpath import Selector
+    from elementpath.xpath31 import XPath31Parser
+    from elementpath.datatypes import DateTime, Date, Time
+    cls = {'dateTime': DateTime, 'date': Date, 'time': Time}
+    rng = run.rng
+    tzs = [None, '+05:00', '-03:00', '+00:00', '-11:30']
+    for kind, exprs in OBJ_EXPRS.items():
+        for expr in exprs:
+            for text in OBJ_VALUES[kind]:
+                try:
+                    sel = Selector(expr, parser=XPath31Parser)
+                except Exception as e:  # noqa
+                    run.disagree(Disagreement({'xpath': expr}, canon_error(e), 'parsed', what='object-expression-rejected'))
+                    break
+                obj = cls[kind].fromstring(text)
+                variables = {'d': obj}
+                state0 = (str(obj), repr(obj.tzinfo))
+                steps = [rng.choice(tzs) for _ in range(rng.randrange(3, 6))]
+                if len(set(steps)) < 2:
+                    steps[-1] = '+05:00' if steps[0] != '+05:00' else '-03:00'
+                for k, tz in enumerate(steps):
+                    d = rng.randrange(len(DOCS))
+
+                    def g(f):
+                        try:
+                            return canon_any(f())
+                        except Exception as e:  # noqa
+                            return canon_error(e)
+                    got = g(lambda: sel.select(make_doc(d)[0], variables=variables, timezone=tz))
+                    fresh = g(lambda: elementpath.select(make_doc(d)[0], expr, parser=XPath31Parser,
+                                                         variables={'d': cls[kind].fromstring(text)}, timezone=tz))
+                    run.stats.count('object-history-steps:' + kind)
+                    case = {'xpath': expr, 'd': f'xs:{kind}({text!r})', 'implicit_timezones': steps[:k + 1]}
+                    if variables.get('d') is not obj or (str(obj), repr(obj.tzinfo)) != state0:
+                        run.disagree(Disagreement(case, f'caller-object:{obj}', None, spec=f'caller-object:{state0[0]}',
+                                                  what='caller-datetime-modified', site='adjust_datetime / get_operands'))
+                        break
+                    if got != fresh:
+                        run.disagree(Disagreement(case, got, None, spec=fresh, what='reused-selector-vs-fresh',
+                                                  site='token-level state / caller object'))
+                        break
+                else:
+                    continue
+                break
 
 
 # --------------------------------------------------------------------------- search
@@ -1080,7 +1245,19 @@ def typeof(e, scope):
     if t == 'Z':
         if typeof(e[1], scope) != 'dt':
             raise IllTyped('Z')
-        return 'dur'
+        return 'tzdur'
+    if t == 'K':
+        if e[1] % 60 or abs(e[1]) > 50400:
+            raise IllTyped('K')
+        return 'tzdur'
+    if t == 'J':
+        if typeof(e[1], scope) != 'dt':
+            raise IllTyped('J')
+        return 'dt'
+    if t == 'J2':
+        if typeof(e[1], scope) != 'dt' or not (e[2] == ('E',) or typeof(e[2], scope) == 'tzdur'):
+            raise IllTyped('J2')
+        return 'dt'
     if t == 'L':
         return typeof(e[3], {**scope, e[1]: typeof(e[2], scope)})
     if t in ('F', 'O', 'Y'):
@@ -1091,7 +1268,7 @@ def typeof(e, scope):
             raise IllTyped('range')
         b = typeof(e[3], {**scope, e[1]: 'int' if r in ('int', 'seq') else ('dt' if r == 'dts' else r[1])})
         if t == 'F':
-            if b == 'dur':
+            if b in ('dur', 'tzdur'):
                 return 'mixed'
             if isinstance(b, tuple) and b[0] == 'fn':
                 return ('seqfn', b)
@@ -1215,7 +1392,13 @@ def shrink(d: Disagreement) -> Disagreement:
             for i in range(len(best['steps'])):
                 cands.append(as_case(best['ast'], best['steps'][:i] + best['steps'][i + 1:]))
         seen = set()
-        for r in rewrites(best['ast']):
+
+        def subtrees(e):
+            for c in e[1:]:
+                if isinstance(c, tuple) and c and isinstance(c[0], str):
+                    yield c
+                    yield from subtrees(c)
+        for r in list(subtrees(best['ast'])) + list(rewrites(best['ast'])):
             try:
                 key = encode(r)
             except Exception:  # noqa
@@ -1224,7 +1407,7 @@ def shrink(d: Disagreement) -> Disagreement:
                 continue
             seen.add(key)
             cands.append(as_case(r, best['steps']))
-            if len(cands) > 300:
+            if len(cands) > 400:
                 break
         res = failing(cands)
         if not res:
@@ -1279,6 +1462,7 @@ def body(run: Run) -> int:
     try:
         correspond(run)
         cache_histories(run)
+        object_histories(run)
     except DriverError as e:
         run.broken.append('driver:C05 ' + str(e)[:300])
     return run.finish('proof', shrink=shrink, search=search)
